@@ -1343,13 +1343,37 @@ func (h *host) onHook(point string) {
 
 // ---------------------------------------------------------------- main of the host mode
 
+// freePort reserves a port for this host's Runtime API: a port below the range the kernel uses for outgoing connections,
+// protected by an exclusive lock file that is held until the process exits. (The first version asked the kernel for a
+// free port, closed it and let the emulator bind it a moment later: two hosts started at the same moment could get the
+// same number; the loser's emulator dies at bind - but not before the loser's scripted processes had talked to the
+// WINNER's Runtime API for a few milliseconds. One foreign registration in some 200 000 cases; section 10 of DESIGN.md.)
+var portLocks []*os.File
+
 func freePort() int {
-	l, err := net.Listen("tcp", "127.0.0.1:0")
-	if err != nil {
-		return 0
+	dir := "/tmp/verif-ports"
+	os.MkdirAll(dir, 0o777)
+	start := (os.Getpid()*7919 + int(time.Now().UnixNano()%9973)) % 20000
+	for i := 0; i < 20000; i++ {
+		port := 10000 + (start+i*13)%20000
+		f, err := os.OpenFile(filepath.Join(dir, strconv.Itoa(port)), os.O_CREATE|os.O_RDWR, 0o666)
+		if err != nil {
+			continue
+		}
+		if syscall.Flock(int(f.Fd()), syscall.LOCK_EX|syscall.LOCK_NB) != nil {
+			f.Close()
+			continue
+		}
+		l, err := net.Listen("tcp", fmt.Sprintf("127.0.0.1:%d", port))
+		if err != nil {
+			f.Close()
+			continue
+		}
+		l.Close()
+		portLocks = append(portLocks, f) // kept open: the lock lives as long as the process
+		return port
 	}
-	defer l.Close()
-	return l.Addr().(*net.TCPAddr).Port
+	return 0
 }
 
 func hostMain() {
